@@ -814,3 +814,71 @@ Proof.
   destruct (get_sess h r) as [t|] eqn:Ht; [|destruct Ho]. destruct (s_conn t) as [c0|] eqn:Hc0; [|destruct Ho].
   destruct Ho as [E|[]]. injection E as <- <-. exists r, rc, t. auto.
 Qed.
+
+(* ------------------------------------------------------------------ comparing copies as step_C05 does *)
+Lemma optrcpt_eqb_true a b : optrcpt_eqb a b = true -> a = b.
+Proof.
+  destruct a as [x|], b as [y|]; cbn; try discriminate; try reflexivity.
+  destruct x, y; cbn; try discriminate; try reflexivity; intros H; apply N.eqb_eq in H; now subst.
+Qed.
+Lemma optrcpt_eqb_refl a : optrcpt_eqb a a = true.
+Proof. destruct a as [[x|x|]|]; cbn; try reflexivity; apply N.eqb_refl. Qed.
+Lemma smsg_eqb_msg_sound k st ss su r t m' : smsg_eqb (SMsg k st ss su r t) m' = true -> m' = SMsg k st ss su r t.
+Proof.
+  destruct m'; cbn; try discriminate. intros H.
+  repeat (apply andb_prop in H as [H ?]).
+  repeat match goal with E : N.eqb _ _ = true |- _ => apply N.eqb_eq in E end.
+  match goal with E : optrcpt_eqb _ _ = true |- _ => apply optrcpt_eqb_true in E end. now subst.
+Qed.
+Lemma smsg_eqb_msg_refl k st ss su r t : smsg_eqb (SMsg k st ss su r t) (SMsg k st ss su r t) = true.
+Proof. cbn. now rewrite !N.eqb_refl, optrcpt_eqb_refl. Qed.
+
+Lemma in_ref_copies pd kindn s to tag T e : In e (ref_copies pd kindn s to tag T) ->
+  exists r rc x, In (r, rc) T /\ find_sd pd r = Some x /\ d_conn x = Some (fst e) /\
+                 snd e = SMsg kindn (stype_n to) (d_sid s) (d_user s) rc tag.
+Proof.
+  intros Hin. unfold ref_copies in Hin. apply in_flat_map in Hin as ([r rc] & HT & He).
+  destruct (find_sd pd r) as [x|] eqn:Hx; [|destruct He]. destruct (d_conn x) as [c'|] eqn:Hc; [|destruct He].
+  destruct He as [<-|[]]. exists r, rc, x. auto.
+Qed.
+
+(* ------------------------------------------------------------------ 1'. the predicate of the harness holds on the model's own step *)
+Theorem msg_step_C05 ctl h c to tag :
+  WF h -> RI h -> h_bus h = [] ->
+  step_C05 (digest_of h) (op_of ctl c to tag) (obs_of_outs (snd (qstep h (op_of ctl c to tag)))) = true.
+Proof.
+  intros W I Hb. rewrite step_C05_eq. cbv zeta.
+  assert (Hcase : (exists sid s, conn_sess h c sid s) \/ (forall sid s, ~ conn_sess h c sid s)).
+  { destruct (aget (h_conns h) c) as [cn|] eqn:Hc; [|right; intros sid s (cn & H & _); congruence].
+    destruct (c_sess cn) as [sid|] eqn:Hl; [|right; intros sid s (cn' & H & H' & _); congruence].
+    destruct (get_sess h sid) as [s|] eqn:Hs; [left; exists sid, s, cn; auto|right; intros sid' s' (cn' & H & H' & H''); congruence]. }
+  destruct Hcase as [(sid & s & Hcs)|Hn].
+  - rewrite (sd_of_conn_sess h c sid s W I Hcs), (msg_outputs ctl h c to tag sid s W I Hb Hcs).
+    set (X := ref_copies (digest_of h) (kind_of ctl) (sd_of h (sid, s)) to tag (ref_targets (digest_of h) ctl (sd_of h (sid, s)) to)).
+    assert (HP : Permutation (all_msgs (obs_of_outs (outs_of X))) X).
+    { eapply perm_trans; [apply all_msgs_obs_perm|]. rewrite conn_msgs_outs_of. apply Permutation_refl. }
+    assert (HX : forall e, In e X -> exists r rc x, In (r, rc) (route_spec (digest_of h) (sd_of h (sid, s)) to) /\
+                   find_sd (digest_of h) r = Some x /\ d_conn x = Some (fst e) /\
+                   snd e = SMsg (kind_of ctl) (stype_n to) sid (d_user (sd_of h (sid, s))) rc tag).
+    { intros e He. destruct (in_ref_copies _ _ _ _ _ _ e He) as (r & rc & x & HT & Hx & Hc & Hm).
+      exists r, rc, x. split; [eapply in_ref_targets; eauto|auto]. }
+    rewrite filter_all.
+    2:{ intros e He. destruct (HX e (Permutation_in _ HP He)) as (r & rc & x & _ & _ & _ & ->). cbn. now rewrite !N.eqb_refl. }
+    apply andb_true_intro. split.
+    + apply mset_eqb_perm; [|exact HP]. intros e He.
+      destruct (HX e (Permutation_in _ HP He)) as (r & rc & x & _ & _ & _ & Hm). destruct e as [c' m]. cbn [fst snd] in *. subst m. split.
+      * now rewrite N.eqb_refl, smsg_eqb_msg_refl.
+      * intros [c'' m'] H. cbn [fst snd] in H. apply andb_prop in H as [H1 H2]. apply N.eqb_eq in H1.
+        apply smsg_eqb_msg_sound in H2. now subst.
+    + apply forallb_forall. intros e He.
+      destruct (HX e (Permutation_in _ HP He)) as (r & rc & x & HT & Hx & Hc & ->).
+      pose proof (conn_sess_conn h c sid s W Hcs) as Hsc. destruct Hcs as (cn & Hcn & Hl & Hs).
+      destruct (targets_shape h c sid s to r rc W I Hs Hsc HT) as [_ [[-> Hne]|(n & t & v & _ & _ & _ & ->)]]; [|now rewrite orb_true_r].
+      rewrite find_sd_digest in Hx. destruct (get_sess h r) as [tr|] eqn:Hr; [|discriminate]. injection Hx as <-.
+      cbn [sd_of d_conn] in Hc. destruct (N.eqb_spec (fst e) c) as [E|]; [|reflexivity]. exfalso. rewrite E in Hc.
+      destruct (ri_conn _ _ I r tr c Hr Hc) as (cn' & Hcn' & Hl'). rewrite Hcn in Hcn'. injection Hcn' as <-. congruence.
+  - rewrite (sd_of_conn_none h c W I Hn). rewrite filter_none; [reflexivity|].
+    intros e He. pose proof (Permutation_in _ (all_msgs_obs_perm _) He) as He'.
+    destruct (msg_outputs_nosess ctl h c to tag W Hb Hn) as [E|E]; rewrite E in He'; cbn in He'; [destruct He'|].
+    destruct He' as [<-|[]]. reflexivity.
+Qed.
